@@ -568,12 +568,14 @@ theorem mkAxes_fields (w full : Bool) (m n s : List Int) (h1 : m.length = n.leng
   · unfold mkAxes
     simp only [zip3_map, zip3With_map]
     cases w
+    -- `congr 1 <;> (…)`: when the generated buffer-length formula is already (definitionally) scipy's length
+    -- — e.g. the source spells it `abs(m_d - n_d) + 1` — `congr` closes the goal itself
     · refine (zip3With_12 (fun a b => if full then Gen.filtAdjBufLenFull a b else Gen.filtAdjBufLenValid a b)
         m n s h1 h2).trans ?_
-      congr 1; funext a b; exact (adj_buf_len full a b).2
+      congr 1 <;> (funext a b; exact (adj_buf_len full a b).2)
     · refine (zip3With_12 (fun a b => if full then Gen.dataAdjBufLenFull a b else Gen.dataAdjBufLenValid a b)
         m n s h1 h2).trans ?_
-      congr 1; funext a b; exact (adj_buf_len full a b).1
+      congr 1 <;> (funext a b; exact (adj_buf_len full a b).1)
   · unfold mkAxes
     simp only [zip3_map, zip3With_map]
     cases w
@@ -581,12 +583,12 @@ theorem mkAxes_fields (w full : Bool) (m n s : List Int) (h1 : m.length = n.leng
         (if full then Gen.filtAdjBufLenFull a b else Gen.filtAdjBufLenValid a b) a) m n s h1 h2).trans ?_
       simp only [Bool.false_eq_true, if_false]
       rw [zipWith_zipWith_fst]
-      congr 1; funext a b; rw [(adj_buf_len full a b).2]
+      congr 1 <;> (funext a b; rw [(adj_buf_len full a b).2])
     · refine (zip3With_12 (fun a b => corrShift (Gen.dataAdjCorrFull full m n)
         (if full then Gen.dataAdjBufLenFull a b else Gen.dataAdjBufLenValid a b) b) m n s h1 h2).trans ?_
       simp only [if_true]
       rw [zipWith_zipWith_snd]
-      congr 1; funext a b; rw [(adj_buf_len full a b).1]
+      congr 1 <;> (funext a b; rw [(adj_buf_len full a b).1])
   · unfold mkAxes
     simp only [zip3_map, zip3With_map]
   · rw [← List.length_map (f := fun a : Axis => a.s), fS]; exact h2.symm
